@@ -272,9 +272,17 @@ def gamma3(tier, seed):
         out.append({"id": f"g3/deref_or/{alts}", "doc": doc_of(pat), "feature": "deref_or", "domain": "att_mem", "lemmas": ("AEM", "EA", "NE", "VAL")})
     d = {"$deref": {"main_reg": "rax", "register_multiplier": [{"$or": ["rbx", "rcx"]}], "constant_multiplier": 4}}
     out.append({"id": "g3/deref_or/index", "doc": doc_of([{"lea": [d]}, "d"]), "feature": "deref_or", "domain": "att_mem", "lemmas": ("AEM", "EA", "NE", "VAL")})
+    # any-order groups with >= 3 children in SUBSTRING mode, decided over a finite mnemonic vocabulary that contains the
+    # children's names, extensions of them and an unrelated name (the unrestricted complement does not terminate in z3)
+    for kids in (["b", "c", "ab"], ["b", "b", "c"], ["b", "ab", "bc", "c"], ["mov", "movz", "push"]):
+        vocab = sorted(set(kids) | {"a", "d", "abc", "x", "bb"})
+        pat = ["a", {"$and_any_order": list(kids)}, "d"]
+        out.append({"id": f"g3/ins/anyorder_small/{kids}", "doc": doc_of(pat), "feature": "ins_and_any_order_small_domain", "lemmas": ("AEM", "EA"), "domain": ["small_mnemonics", vocab]})
+        pat = [{"$and_any_order": list(kids), "times": 2}, "d"]
+        out.append({"id": f"g3/ins/anyorder_small_times/{kids}", "doc": doc_of(pat), "feature": "ins_and_any_order_small_domain", "lemmas": ("AEM",), "domain": ["small_mnemonics", vocab]})
     # 4 children with OVERLAPPING names in substring mode: one instruction must not stand for two children
     pat = [{"$and_any_order": ["mov", "movz", "push", "pop"]}, "d"]
-    out.append({"id": "g3/ins/anyorder4_overlap", "doc": doc_of(pat), "feature": "ins_and_any_order4", "lemmas": ("AEM",), "aem_dirs": ("J-S",) if tier == "quick" else ("J-S", "S-J"), "timeout_ms": 300000 if tier == "thorough" else 60000})
+    out.append({"id": "g3/ins/anyorder4_overlap", "doc": doc_of(pat), "feature": "ins_and_any_order4", "lemmas": ("AEM",), "domain": "small_mnemonics", "timeout_ms": 300000 if tier == "thorough" else 90000})
     if tier == "thorough":
         # 4 children = 24 permutations
         pat = ["a", {"$and_any_order": ["b", "c", "e", "f"]}, "d"]
